@@ -73,7 +73,10 @@ def gen_pipeline(rng, allow_ctf=True, allow_dists=True, allow_prism=False, small
             scan.update(start=rng.random(2).round(4).tolist(), end=rng.random(2).round(4).tolist(),
                         gpts=int(rng.integers(2, 7)), endpoint=bool(rng.random() < 0.5))
         elif sk == "grid":
-            scan.update(gpts=[int(rng.integers(1, 5)), int(rng.integers(1, 5))], endpoint=bool(rng.random() < 0.3),
+            g = [int(rng.integers(1, 5)), int(rng.integers(1, 5))]
+            # a one-point scan with endpoint=True has no consistent end point (degenerate grid, see C17 known
+            # finding); it is outside the domain of this workload
+            scan.update(gpts=g, endpoint=bool(rng.random() < 0.3 and min(g) > 1),
                         start=[0.0, 0.0] if rng.random() < 0.5 else rng.uniform(0, 0.4, 2).round(4).tolist(),
                         end=[1.0, 1.0] if rng.random() < 0.5 else rng.uniform(0.5, 1.0, 2).round(4).tolist())
         d["scan"] = scan
